@@ -8,8 +8,6 @@ import (
 	"fmt"
 	"strings"
 
-	"pgregory.net/rapid"
-
 	"github.com/bluenviron/mediamtx/internal/protocols/moq/catalog"
 	"github.com/bluenviron/mediamtx/internal/protocols/moq/controlmessage"
 	"github.com/bluenviron/mediamtx/internal/protocols/moq/namespace"
@@ -45,102 +43,111 @@ func safeMarshal(f func() []byte) (out []byte) {
 	return f()
 }
 
-func moqAuthParams(t *rapid.T, label string) parameter.Parameters {
-	switch rapid.IntRange(0, 5).Draw(t, label+"Kind") {
-	case 0, 1, 2:
-		return nil
-	case 3:
-		val := rapid.SampledFrom([]string{
-			"Basic " + base64.StdEncoding.EncodeToString([]byte("admin:wrong")),
-			"Basic " + base64.StdEncoding.EncodeToString([]byte("nocolon")),
-			"Basic !!!notbase64", "Basic ", "Basic", "Bearer ", "Bearer x.y.z", "Bearer " + strings.Repeat("A", 5000),
-			"", "basic abc", "Digest x",
-		}).Draw(t, label+"Val")
+func moqAuthParams(s *Src) parameter.Parameters {
+	switch s.OddCase(6, 3) {
+	case 0:
+		val := s.Pick(
+			"Basic "+base64.StdEncoding.EncodeToString([]byte("admin:wrong")),
+			"Basic "+base64.StdEncoding.EncodeToString([]byte("nocolon")),
+			"Basic !!!notbase64", "Basic ", "Basic", "Bearer ", "Bearer x.y.z", "Bearer "+strings.Repeat("A", 5000),
+			"", "basic abc", "Digest x")
 		return parameter.Parameters{&parameter.AuthorizationToken{
 			AliasType:  parameter.AuthorizationTokenAliasTypeUseValue,
-			TokenType:  SmallOrEvilUint(t, label+"TT", 3),
+			TokenType:  s.SmallOrEvilUint(3, 4),
 			TokenValue: []byte(val),
 		}}
-	case 4:
+	case 1:
 		return parameter.Parameters{&parameter.AuthorizationToken{
-			AliasType:  parameter.AuthorizationTokenAliasType(SmallOrEvilUint(t, label+"AT", 4)),
-			TokenType:  EvilUint(t, label+"TT"),
-			TokenValue: []byte(MaybeLong(t, label+"TV")),
+			AliasType:  parameter.AuthorizationTokenAliasType(s.SmallOrEvilUint(4, 2)),
+			TokenType:  s.EvilUint(),
+			TokenValue: []byte(s.MaybeLong()),
 		}}
-	default:
+	case 2:
 		var ps parameter.Parameters
-		for i := 0; i < rapid.IntRange(2, 5).Draw(t, label+"N"); i++ {
+		for i := 0; i < s.Range(2, 5); i++ {
 			ps = append(ps, &parameter.AuthorizationToken{
 				AliasType:  parameter.AuthorizationTokenAliasTypeUseValue,
 				TokenValue: []byte("Bearer t"),
 			})
 		}
 		return ps
+	default:
+		return nil
 	}
 }
 
-func moqNamespace(t *rapid.T, label string) namespace.Namespace {
-	switch rapid.IntRange(0, 4).Draw(t, label+"Kind") {
-	case 0, 1, 2:
-		return nil
-	case 3:
-		return namespace.Namespace{EvilToken(t, label+"A")}
-	default:
-		n := rapid.SampledFrom([]int{2, 31, 32}).Draw(t, label+"N")
+func moqNamespace(s *Src) namespace.Namespace {
+	switch s.OddCase(10, 2) {
+	case 0:
+		return namespace.Namespace{s.EvilToken()}
+	case 1:
+		n := []int{2, 31, 32}[s.Intn(3)]
 		ns := make(namespace.Namespace, n)
 		for i := range ns {
 			ns[i] = "n"
 		}
 		return ns
+	default:
+		return nil
 	}
 }
 
-var moqCodecs = []string{
-	"avc3.640028", "avc3.42c01e", "avc3", "hev1.1.6.L93.B0", "hev1", "av01.0.04M.08", "av01", "vp09.00.10.08", "vp09", "vp8",
-	"opus", "mp4a.40.2", "mp4a", "mp4a.40.5", "opus", "avc3.640028", "mp4a.40.2", "hev1.1.6.L93.B0", "vp8", "av01.0.04M.08",
-	"opus", "mp4a.40.2", "avc3.640028", "vp09.00.10.08",
-	"avc1.640028", "hvc1", "flac", "", "OPUS", "vp8 ", "mp3", "ac-3", // not supported: the catalog is refused
-}
+var (
+	moqCodecsOK  = []string{"avc3.640028", "avc3.42c01e", "hev1.1.6.L93.B0", "av01.0.04M.08", "vp09.00.10.08", "vp8", "opus", "mp4a.40.2", "opus", "avc3.640028", "mp4a.40.2"}
+	moqCodecsOdd = []string{"avc3", "hev1", "av01", "vp09", "mp4a", "mp4a.40.5", "avc1.640028", "hvc1", "flac", "", "OPUS", "vp8 ", "mp3", "ac-3"}
+)
 
-func moqCatalogJSON(t *rapid.T, label string) ([]byte, int, string) {
-	switch rapid.IntRange(0, 11).Draw(t, label+"Shape") {
-	case 0: // raw JSON oddities
-		s := rapid.SampledFrom([]string{
+func moqCatalogJSON(s *Src) ([]byte, int, string) {
+	if s.Odd(12) { // raw JSON oddities
+		js := s.Pick(
 			`{}`, `null`, `[]`, `"x"`, `1`, ``, `{`, `{"tracks":null}`, `{"tracks":{}}`, `{"tracks":[null]}`, `{"tracks":[1]}`,
 			`{"version":"1","tracks":[]}`, `{"version":1e400,"tracks":[]}`, `{"tracks":[{"codec":1}]}`,
 			`{"tracks":[{"codec":"opus","channels":1e100}]}`, `{"tracks":[{"codec":"mp4a.40.2","samplerate":-1,"channels":-1}]}`,
 			`{"tracks":[{"codec":"opus","channels":9223372036854775807}]}`,
 			strings.Repeat(`{"tracks":[`, 2000), strings.Repeat("[", 100000),
-			`{"tracks":[{"codec":"avc3.640028","name":"0"},{"codec":"avc3.640028","name":"0"}]}`,
-		}).Draw(t, label+"Raw")
-		return []byte(s), 0, "catalog-raw"
-	default:
+			`{"tracks":[{"codec":"avc3.640028","name":"0"},{"codec":"avc3.640028","name":"0"}]}`)
+		return []byte(js), 0, "catalog-raw"
 	}
-	nTracks := rapid.SampledFrom([]int{0, 1, 1, 1, 2, 2, 3, 8, 50, 51, 300}).Draw(t, label+"NTracks")
-	cat := catalog.Catalog{Version: int(int64(SmallOrEvilUint(t, label+"Ver", 2)))}
+	nTracks := []int{1, 1, 1, 2, 2, 2, 3}[s.Intn(7)]
+	if s.Odd(10) {
+		nTracks = []int{0, 8, 50, 51, 300}[s.Intn(5)]
+	}
+	cat := catalog.Catalog{Version: int(int64(s.SmallOrEvilUint(2, 10)))}
 	for i := 0; i < nTracks; i++ {
-		l := fmt.Sprintf("%sT%d", label, i)
-		if i >= 4 { // big catalogs: keep the draw count bounded
-			cat.Tracks = append(cat.Tracks, catalog.Track{Name: fmt.Sprint(i), Packaging: "loc", IsLive: true, Codec: moqCodecs[i%len(moqCodecs)]})
+		if i >= 4 { // big catalogs: plain entries
+			cat.Tracks = append(cat.Tracks, catalog.Track{Name: fmt.Sprint(i), Packaging: "loc", IsLive: true, Codec: moqCodecsOK[i%len(moqCodecsOK)]})
 			continue
 		}
 		tr := catalog.Track{
 			Name:      fmt.Sprint(i),
-			Packaging: rapid.SampledFrom([]string{"loc", "loc", "loc", "cmaf", "", "x"}).Draw(t, l+"Pack"),
-			IsLive:    rapid.Bool().Draw(t, l+"Live"),
-			Codec:     rapid.SampledFrom(moqCodecs).Draw(t, l+"Codec"),
+			Packaging: "loc",
+			IsLive:    true,
+			Codec:     moqCodecsOK[s.Intn(len(moqCodecsOK))],
 		}
-		if rapid.IntRange(0, 2).Draw(t, l+"Odd") == 0 {
-			tr.Name = EvilToken(t, l+"Name")
-			tr.Namespace = EvilToken(t, l+"NS")
-			tr.InitData = rapid.SampledFrom([]string{"", "AAAA", "!!!", "AUIAHv/hAAVnQgAeAQAEaM4G4g=="}).Draw(t, l+"Init")
+		if s.Odd(12) {
+			tr.Codec = moqCodecsOdd[s.Intn(len(moqCodecsOdd))]
 		}
-		tr.Samplerate = int(int64(rapid.SampledFrom([]uint64{0, 0, 8000, 44100, 48000, 96000, 1, 7350, 1<<31 - 1, 1 << 31, 1<<63 - 1, 1 << 63, 1<<64 - 1}).Draw(t, l+"SR")))
-		tr.Channels = int(int64(rapid.SampledFrom([]uint64{0, 1, 2, 2, 6, 8, 255, 256, 257, 1<<31 - 1, 1 << 63, 1<<64 - 1}).Draw(t, l+"Ch")))
-		tr.ClockRate = int(int64(SmallOrEvilUint(t, l+"CR", 3)))
-		tr.Width = int(int64(SmallOrEvilUint(t, l+"W", 3)))
-		tr.Height = int(int64(SmallOrEvilUint(t, l+"H", 3)))
-		tr.Bitrate = int(int64(SmallOrEvilUint(t, l+"BR", 3)))
+		if s.Odd(10) {
+			tr.Packaging = s.Pick("cmaf", "", "x")
+			tr.IsLive = false
+		}
+		if s.Odd(10) {
+			tr.Name = s.EvilToken()
+			tr.Namespace = s.EvilToken()
+			tr.InitData = s.Pick("", "AAAA", "!!!", "AUIAHv/hAAVnQgAeAQAEaM4G4g==")
+		}
+		if strings.HasPrefix(tr.Codec, "mp4a") || tr.Codec == "opus" {
+			tr.Samplerate = []int{44100, 48000, 48000, 8000, 96000}[s.Intn(5)]
+			tr.Channels = []int{1, 2, 2, 6}[s.Intn(4)]
+		}
+		if s.Odd(5) { // numeric fields: the server copies them into format parameters unchecked
+			tr.Samplerate = int(int64([]uint64{0, 1, 7350, 1<<31 - 1, 1 << 31, 1<<63 - 1, 1 << 63, 1<<64 - 1}[s.Intn(8)]))
+			tr.Channels = int(int64([]uint64{0, 8, 255, 256, 257, 1<<31 - 1, 1 << 63, 1<<64 - 1}[s.Intn(8)]))
+			tr.ClockRate = int(int64(s.EvilUint()))
+			tr.Width = int(int64(s.EvilUint()))
+			tr.Height = int(int64(s.EvilUint()))
+			tr.Bitrate = int(int64(s.EvilUint()))
+		}
 		cat.Tracks = append(cat.Tracks, tr)
 	}
 	b, err := json.Marshal(cat)
@@ -151,37 +158,38 @@ func moqCatalogJSON(t *rapid.T, label string) ([]byte, int, string) {
 }
 
 // moqPayload draws an object payload; AVCC-framed NAL units for the video codecs, anything for the others.
-func moqPayload(t *rapid.T, label string) []byte {
-	switch rapid.IntRange(0, 6).Draw(t, label+"Kind") {
-	case 0: // valid AVCC: [len32][nalu]...
+func moqPayload(s *Src) []byte {
+	nalus := [][]byte{
+		{0x65, 0x88, 0x84, 0x00, 0x10}, {0x67, 0x42, 0xc0, 0x28, 0xd9, 0x00, 0x78, 0x02, 0x27, 0xe5, 0x84, 0x00, 0x00, 0x03, 0x00, 0x04, 0x00, 0x00, 0x03, 0x00, 0xf0, 0x3c, 0x60, 0xc9, 0x20},
+		{0x68, 0xce, 0x3c, 0x80}, {0x41, 0x9a, 0x00}, {0x09, 0xf0}, {0x06, 0x05, 0xff}, {0x67}, {0x40, 0x01, 0x0c}, {0x26, 0x01, 0xaf},
+	}
+	switch s.OddCase(3, 6) {
+	case 0: // AVCC with lying length
+		return []byte{0xff, 0xff, 0xff, 0xff, 0x65, 0x00}
+	case 1:
+		return []byte{0, 0, 0, 0}
+	case 2: // AV1 temporal unit-ish / OBU headers
+		return s.PickBytes([]byte{0x12, 0x00}, []byte{0x0a, 0x0b, 0, 0, 0, 0x42, 0xab, 0xbf, 0xc3, 0x70, 0x0b, 0x80, 0x01}, []byte{0x0a, 0xff, 0xff, 0xff, 0xff, 0xff, 0xff, 0xff, 0xff, 0x7f}, []byte{0x80}, []byte{0x7c})
+	case 3:
+		return s.Bytes(1, 64)
+	case 4:
+		return make([]byte, []int{1, 1500, 65536, 1 << 20}[s.Intn(4)])
+	case 5:
+		return []byte{0xfc, 0xff, 0xfe} // opus-like
+	default: // valid AVCC: [len32][nalu]...
 		var out []byte
-		for i := 0; i < rapid.IntRange(1, 3).Draw(t, label+"N"); i++ {
-			nalu := rapid.SampledFrom([][]byte{
-				{0x65, 0x88, 0x84, 0x00, 0x10}, {0x67, 0x42, 0xc0, 0x28, 0xd9, 0x00, 0x78, 0x02, 0x27, 0xe5, 0x84, 0x00, 0x00, 0x03, 0x00, 0x04, 0x00, 0x00, 0x03, 0x00, 0xf0, 0x3c, 0x60, 0xc9, 0x20},
-				{0x68, 0xce, 0x3c, 0x80}, {0x41, 0x9a, 0x00}, {0x09, 0xf0}, {0x06, 0x05, 0xff}, {0x67}, {0x40, 0x01, 0x0c}, {0x26, 0x01, 0xaf},
-			}).Draw(t, fmt.Sprintf("%sNALU%d", label, i))
+		for i := 0; i < s.Range(1, 3); i++ {
+			nalu := nalus[s.Intn(len(nalus))]
 			out = append(out, byte(len(nalu)>>24), byte(len(nalu)>>16), byte(len(nalu)>>8), byte(len(nalu)))
 			out = append(out, nalu...)
 		}
 		return out
-	case 1: // AVCC with lying length
-		return []byte{0xff, 0xff, 0xff, 0xff, 0x65, 0x00}
-	case 2:
-		return []byte{0, 0, 0, 0}
-	case 3: // AV1 temporal unit-ish / OBU headers
-		return rapid.SampledFrom([][]byte{{0x12, 0x00}, {0x0a, 0x0b, 0, 0, 0, 0x42, 0xab, 0xbf, 0xc3, 0x70, 0x0b, 0x80, 0x01}, {0x0a, 0xff, 0xff, 0xff, 0xff, 0xff, 0xff, 0xff, 0xff, 0x7f}, {0x80}, {0x7c}}).Draw(t, label+"OBU")
-	case 4:
-		return rapid.SliceOfN(rapid.Byte(), 1, 64).Draw(t, label+"Rnd")
-	case 5:
-		return make([]byte, rapid.SampledFrom([]int{1, 1500, 65536, 1 << 20}).Draw(t, label+"Zeros"))
-	default:
-		return []byte{0xfc, 0xff, 0xfe} // opus-like
 	}
 }
 
 // GenMoQ draws a MoQ client script. nativeQUIC: the PATH setup option carries the path (native QUIC) instead of the URL.
-func GenMoQ(t *rapid.T, nativeQUIC bool) MoQScript {
-	sc := MoQScript{Version: rapid.SampledFrom(MoQVersions).Draw(t, "moqVersion")}
+func GenMoQ(s *Src, nativeQUIC bool) MoQScript {
+	sc := MoQScript{Version: MoQVersions[s.Intn(len(MoQVersions))]}
 	draft16 := sc.Version == "moqt-16"
 	add := func(bidi bool, d []byte, note string) {
 		sc.Streams = append(sc.Streams, MoQStream{Bidi: bidi, D: d, Note: note})
@@ -190,28 +198,29 @@ func GenMoQ(t *rapid.T, nativeQUIC bool) MoQScript {
 	// ---- setup
 	setup := controlmessage.Setup{}
 	if nativeQUIC {
-		p := "/" + PathName(t, "moqPath")
-		switch rapid.IntRange(0, 11).Draw(t, "moqPathShape") {
+		p := "/" + s.PathName()
+		switch s.OddCase(8, 3) {
 		case 0:
-			p = PathName(t, "moqPath2") // no leading slash
+			p = s.PathName() // no leading slash
 		case 1:
-			p += "?" + rapid.SampledFrom([]string{"user=admin&pass=x", "token=a.b.c", "jwt=x", "%zz", "a=b&a=c", "", "?"}).Draw(t, "moqQuery")
+			p += "?" + s.Pick("user=admin&pass=x", "token=a.b.c", "jwt=x", "%zz", "a=b&a=c", "", "?")
 		case 2:
 			p = ""
-		default:
 		}
 		setup.Path = p
 	}
-	switch rapid.IntRange(0, 19).Draw(t, "moqSetupOdd") {
+	switch s.OddCase(15, 2) {
 	case 0:
-		setup.Authority = EvilToken(t, "moqAuthority")
+		setup.Authority = s.EvilToken()
 	case 1:
 		if !nativeQUIC {
-			setup.Path = "/" + PathName(t, "moqWTPath") // PATH over WebTransport is forbidden
+			setup.Path = "/" + s.PathName() // PATH over WebTransport is forbidden
 		}
-	default:
 	}
-	setupKind := rapid.SampledFrom([]string{"ok", "ok", "ok", "ok", "ok", "ok", "ok", "ok", "ok", "ok", "ok", "ok", "none", "twice", "wrongkind", "late"}).Draw(t, "moqSetupKind")
+	setupKind := "ok"
+	if s.Odd(10) {
+		setupKind = s.Pick("none", "twice", "wrongkind", "late")
+	}
 	setupBytes := func(asClient bool) []byte {
 		if asClient {
 			return safeMarshal(func() []byte { return controlmessage.ClientSetup(setup).Marshal() })
@@ -234,28 +243,35 @@ func GenMoQ(t *rapid.T, nativeQUIC bool) MoQScript {
 	}
 
 	// ---- flow
-	sc.Flow = rapid.SampledFrom([]string{"subscribe", "subscribe", "publish", "publish", "publish", "mixed", "junk"}).Draw(t, "moqFlow")
-	subscribeCatalog := func(l string) {
+	sc.Flow = s.Pick("subscribe", "subscribe", "subscribe", "publish", "publish", "publish", "publish", "mixed", "junk")
+	if s.Level == 0 && (sc.Flow == "junk" || sc.Flow == "mixed") {
+		sc.Flow = "publish"
+	}
+	subscribeCatalog := func() {
 		m := controlmessage.Subscribe{
-			RequestID:  SmallOrEvilUint(t, l+"Req", 4),
-			Namespace:  moqNamespace(t, l+"NS"),
+			RequestID:  s.SmallOrEvilUint(4, 10),
+			Namespace:  moqNamespace(s),
 			TrackName:  ".catalog",
-			Parameters: moqAuthParams(t, l+"Auth"),
+			Parameters: moqAuthParams(s),
 		}
 		add(true, safeMarshal(m.Marshal), "subscribe-catalog")
 	}
-	subscribeTrack := func(l string) {
+	subscribeTrack := func() {
+		name := s.Pick("0", "0", "1", "1", "2")
+		if s.Odd(6) {
+			name = s.Pick("99", "-1", "-0", "+1", "00", "a", "", "0x0", "9223372036854775807", "9223372036854775808", ".catalog2", " 0", "0 ", "٠")
+		}
 		m := controlmessage.Subscribe{
-			RequestID: SmallOrEvilUint(t, l+"Req", 4),
-			Namespace: moqNamespace(t, l+"NS"),
-			TrackName: rapid.SampledFrom([]string{"0", "0", "1", "1", "2", "99", "-1", "-0", "+1", "00", "a", "", "0x0", "9223372036854775807", "9223372036854775808", ".catalog2", " 0", "0 ", "٠"}).Draw(t, l+"Track"),
+			RequestID: s.SmallOrEvilUint(4, 10),
+			Namespace: moqNamespace(s),
+			TrackName: name,
 		}
 		add(true, safeMarshal(m.Marshal), "subscribe-track")
 	}
-	publishCatalogData := func(l string) int {
-		js, n, note := moqCatalogJSON(t, l+"Cat")
+	publishCatalogData := func() int {
+		js, n, note := moqCatalogJSON(s)
 		sg := subgroup.SubGroup{
-			Header:  subgroup.Header{Properties: rapid.IntRange(0, 5).Draw(t, l+"Props") == 0, FirstObject: true, TrackAlias: 0, GroupID: SmallOrEvilUint(t, l+"Group", 2)},
+			Header:  subgroup.Header{Properties: s.Odd(10), FirstObject: true, TrackAlias: 0, GroupID: s.SmallOrEvilUint(2, 10)},
 			Objects: []subgroup.Object{{Payload: js}},
 		}
 		if len(js) == 0 {
@@ -264,123 +280,131 @@ func GenMoQ(t *rapid.T, nativeQUIC bool) MoQScript {
 		add(false, safeMarshal(sg.Marshal), note)
 		return n
 	}
-	publishCatalog := func(l string) {
+	publishCatalog := func() {
 		m := controlmessage.Publish{
-			RequestID:  SmallOrEvilUint(t, l+"Req", 4),
-			Namespace:  moqNamespace(t, l+"NS"),
+			RequestID:  s.SmallOrEvilUint(4, 10),
+			Namespace:  moqNamespace(s),
 			TrackName:  ".catalog",
-			TrackAlias: SmallOrEvilUint(t, l+"Alias", 2),
-			Parameters: moqAuthParams(t, l+"Auth"),
+			TrackAlias: s.SmallOrEvilUint(2, 10),
+			Parameters: moqAuthParams(s),
 		}
 		add(true, safeMarshal(m.Marshal), "publish-catalog")
 	}
-	publishTrack := func(l string) {
+	publishTrack := func() {
 		m := controlmessage.Publish{
-			RequestID:  SmallOrEvilUint(t, l+"Req", 4),
-			TrackName:  rapid.SampledFrom([]string{"0", "1", "2", "x", ""}).Draw(t, l+"Track"),
-			TrackAlias: SmallOrEvilUint(t, l+"Alias", 4),
+			RequestID:  s.SmallOrEvilUint(4, 10),
+			TrackName:  s.Pick("0", "1", "2", "x", ""),
+			TrackAlias: s.SmallOrEvilUint(4, 10),
 		}
 		add(true, safeMarshal(m.Marshal), "publish-track")
 	}
-	dataSubgroup := func(l string, nTracks int) {
+	nextGroup := uint64(0)
+	dataSubgroup := func(nTracks int) {
 		alias := uint64(1)
 		if nTracks > 1 {
-			alias = uint64(rapid.IntRange(1, nTracks).Draw(t, l+"Alias"))
+			alias = uint64(s.Range(1, nTracks))
 		}
-		if rapid.IntRange(0, 7).Draw(t, l+"AliasOdd") == 0 {
-			alias = SmallOrEvilUint(t, l+"AliasEvil", 60)
+		if s.Odd(10) {
+			alias = s.SmallOrEvilUint(60, 2)
 		}
-		withProps := rapid.IntRange(0, 7).Draw(t, l+"NoProps") != 0
-		obj := subgroup.Object{IDDelta: SmallOrEvilUint(t, l+"IDDelta", 1), Payload: moqPayload(t, l+"Payload")}
+		withProps := !s.Odd(10)
+		obj := subgroup.Object{IDDelta: s.SmallOrEvilUint(1, 10), Payload: moqPayload(s)}
 		if withProps {
-			ts := property.Timestamp(int64(rapid.SampledFrom([]uint64{0, 1, 3000, 90000, 1 << 32, 1<<62 - 1, 1<<63 - 1, 1 << 63, 1<<64 - 1}).Draw(t, l+"TS")))
+			tsv := nextGroup * 3000
+			if s.Odd(6) {
+				tsv = []uint64{0, 1, 1 << 32, 1<<62 - 1, 1<<63 - 1, 1 << 63, 1<<64 - 1}[s.Intn(7)]
+			}
+			ts := property.Timestamp(int64(tsv))
 			obj.Properties = property.Properties{&ts}
 		}
+		group := nextGroup
+		nextGroup++
+		if s.Odd(5) { // out of order / gaps / repeats: the reorderer
+			group = []uint64{0, 1, 2, 3, 5, 7, 60, 100, 1 << 32, 1<<64 - 1}[s.Intn(10)]
+		}
 		sg := subgroup.SubGroup{
-			Header:  subgroup.Header{Properties: withProps, FirstObject: rapid.Bool().Draw(t, l+"First"), TrackAlias: alias, GroupID: rapid.SampledFrom([]uint64{0, 1, 2, 3, 4, 5, 5, 7, 60, 100, 1 << 32, 1<<64 - 1}).Draw(t, l+"Group")},
+			Header:  subgroup.Header{Properties: withProps, FirstObject: s.Chance(2), TrackAlias: alias, GroupID: group},
 			Objects: []subgroup.Object{obj},
 		}
 		add(false, safeMarshal(sg.Marshal), "data-subgroup")
 	}
-	junk := func(l string) {
-		bidi := rapid.Bool().Draw(t, l+"Bidi")
-		d := rapid.SampledFrom([][]byte{
-			{}, {0x00}, {0x10}, {0x30}, {0x11, 0x00}, {0x31, 0xff}, {0x70, 0x00, 0x00}, {0xff},
-			{0x03, 0xff, 0xff}, {0x03, 0x00, 0x00}, {0x1d, 0x00, 0x00}, {0x20, 0x00, 0x01, 0x01}, {0xc0, 0x2f, 0x00, 0x00, 0x00},
-			{0x40, 0x40, 0x00, 0x00}, {0x05, 0x00, 0x00}, {0x07, 0x00, 0x04, 0, 0, 0, 0}, {0x1e, 0x00, 0x00}, {0x04, 0x00, 0x02, 0x00, 0x00},
-			{0x10, 0x00, 0x00, 0x00, 0x00}, {0x10, 0x00, 0x00, 0x00, 0x01, 0x41, 0x00, 0x00, 0x03}, {0x11, 0x01, 0x00, 0x00, 0xff, 0xff, 0xff},
-			{0x10, 0x00, 0x00, 0x00, 0xff, 0xff, 0xff, 0xff, 0xff, 0xff, 0xff, 0xff, 0xff},
-		}).Draw(t, l+"Junk")
-		if rapid.IntRange(0, 3).Draw(t, l+"Rnd") == 0 {
-			d = rapid.SliceOfN(rapid.Byte(), 0, 40).Draw(t, l+"RndBytes")
+	junk := func() {
+		d := s.PickBytes(
+			[]byte{}, []byte{0x00}, []byte{0x10}, []byte{0x30}, []byte{0x11, 0x00}, []byte{0x31, 0xff}, []byte{0x70, 0x00, 0x00}, []byte{0xff},
+			[]byte{0x03, 0xff, 0xff}, []byte{0x03, 0x00, 0x00}, []byte{0x1d, 0x00, 0x00}, []byte{0x20, 0x00, 0x01, 0x01}, []byte{0xc0, 0x2f, 0x00, 0x00, 0x00},
+			[]byte{0x40, 0x40, 0x00, 0x00}, []byte{0x05, 0x00, 0x00}, []byte{0x07, 0x00, 0x04, 0, 0, 0, 0}, []byte{0x1e, 0x00, 0x00}, []byte{0x04, 0x00, 0x02, 0x00, 0x00},
+			[]byte{0x10, 0x00, 0x00, 0x00, 0x00}, []byte{0x10, 0x00, 0x00, 0x00, 0x01, 0x41, 0x00, 0x00, 0x03}, []byte{0x11, 0x01, 0x00, 0x00, 0xff, 0xff, 0xff},
+			[]byte{0x10, 0x00, 0x00, 0x00, 0xff, 0xff, 0xff, 0xff, 0xff, 0xff, 0xff, 0xff, 0xff})
+		if s.Chance(4) {
+			d = s.Bytes(0, 40)
 		}
-		add(bidi, d, "junk")
+		add(s.Chance(2), d, "junk")
 	}
 
 	switch sc.Flow {
 	case "subscribe":
-		subscribeCatalog("moqSC")
-		for i := 0; i < rapid.IntRange(0, 3).Draw(t, "moqNSub"); i++ {
-			subscribeTrack(fmt.Sprintf("moqST%d", i))
+		subscribeCatalog()
+		for i := 0; i < s.Range(0, 3); i++ {
+			subscribeTrack()
 		}
-		if rapid.IntRange(0, 5).Draw(t, "moqSub2") == 0 {
-			subscribeCatalog("moqSC2")
+		if s.Odd(8) {
+			subscribeCatalog()
 		}
 	case "publish":
-		order := rapid.IntRange(0, 2).Draw(t, "moqPubOrder")
+		order := 0
+		if s.Chance(3) {
+			order = 1
+		}
 		n := 1
 		if order == 0 {
-			n = publishCatalogData("moqPC")
-			publishCatalog("moqP")
+			n = publishCatalogData()
+			publishCatalog()
 		} else {
-			publishCatalog("moqP")
-			n = publishCatalogData("moqPC")
+			publishCatalog()
+			n = publishCatalogData()
 		}
-		if order == 2 {
-			publishCatalogData("moqPC2")
+		if s.Odd(10) {
+			publishCatalogData() // a second catalog
 		}
-		for i := 0; i < rapid.IntRange(0, 2).Draw(t, "moqNPubTrack"); i++ {
-			publishTrack(fmt.Sprintf("moqPT%d", i))
+		for i := 0; i < s.Range(0, 2); i++ {
+			publishTrack()
 		}
-		for i := 0; i < rapid.IntRange(0, 6).Draw(t, "moqNData"); i++ {
-			dataSubgroup(fmt.Sprintf("moqD%d", i), n)
+		for i := 0; i < s.Range(0, 6); i++ {
+			dataSubgroup(n)
 		}
 	case "mixed":
-		for i := 0; i < rapid.IntRange(1, 6).Draw(t, "moqNMixed"); i++ {
-			l := fmt.Sprintf("moqM%d", i)
-			switch rapid.IntRange(0, 6).Draw(t, l+"Op") {
+		for i := 0; i < s.Range(1, 6); i++ {
+			switch s.Intn(7) {
 			case 0:
-				subscribeCatalog(l)
+				subscribeCatalog()
 			case 1:
-				subscribeTrack(l)
+				subscribeTrack()
 			case 2:
-				publishCatalogData(l)
+				publishCatalogData()
 			case 3:
-				publishCatalog(l)
+				publishCatalog()
 			case 4:
-				publishTrack(l)
+				publishTrack()
 			case 5:
-				dataSubgroup(l, 2)
+				dataSubgroup(2)
 			default:
-				junk(l)
+				junk()
 			}
 		}
 	default:
-		for i := 0; i < rapid.IntRange(1, 4).Draw(t, "moqNJunk"); i++ {
-			junk(fmt.Sprintf("moqJ%d", i))
+		for i := 0; i < s.Range(1, 4); i++ {
+			junk()
 		}
 	}
 	if setupKind == "late" {
 		emitSetup()
 	}
-	// byte-level damage on top of the structure: most scripts keep all but one stream intact, so that the session
+	// byte-level damage on top of the structure: scripts keep all but one stream intact, so that the session
 	// reaches the state the damaged stream is meant for (any stream error ends the whole session)
-	if len(sc.Streams) > 0 {
-		for i := 0; i < rapid.SampledFrom([]int{0, 0, 1, 1, 1, 2}).Draw(t, "moqDamaged"); i++ {
-			k := rapid.IntRange(0, len(sc.Streams)-1).Draw(t, fmt.Sprintf("moqDamagedIdx%d", i))
-			sc.Streams[k].D = MutateBytesAlways(t, fmt.Sprintf("moqMut%d", i), sc.Streams[k].D)
-			sc.Streams[k].Note += "+damaged"
-		}
+	if len(sc.Streams) > 0 && s.Odd(3) {
+		k := s.Intn(len(sc.Streams))
+		sc.Streams[k].D = s.MutateBytesAlways(sc.Streams[k].D)
+		sc.Streams[k].Note += "+damaged"
 	}
 	return sc
 }
